@@ -186,6 +186,20 @@ fn replay_one(obs: &Value, owner: &[usize], nm: usize, variant: usize) -> Result
     let gate_path = |g: usize| gp[g - 1].clone();
     let any_poison = !b.poisoned.is_empty();
 
+    // ---- identity of every gate: name, cluster position / size, textual forms, owner (never touched by connect calls)
+    for (gi, gate) in b.gates.iter().enumerate() {
+        let (name, pos) = &b.gate_names[gi];
+        let m = owner[gi] - 1;
+        let size = if variant % 2 == 1 { owner.iter().filter(|o| **o == owner[gi]).count() } else { 1 };
+        let exp_str = if size > 1 { format!("{name}[{pos}]") } else { name.clone() };
+        let got = (gate.name().to_string(), gate.pos(), gate.size(), gate.is_cluster(), gate.str(), gate.path().as_str().to_string(), gate.owner().path().as_str().to_string());
+        let exp = (name.clone(), *pos, size, size > 1, exp_str.clone(), format!("{}.{}", b.mod_paths[m], exp_str), b.mod_paths[m].clone());
+        if got != exp {
+            return Err(err(&format!("gate identity (name, pos, size, is_cluster, str, path, owner) of gate {}", gi + 1), &exp, &got));
+        }
+        checks += 1;
+    }
+
     // ---- static gate queries (C08)
     for go in obs["gates"].as_array().unwrap() {
         let g = go["g"].as_u64().unwrap() as usize;
@@ -214,9 +228,25 @@ fn replay_one(obs: &Value, owner: &[usize], nm: usize, variant: usize) -> Result
                 if kind == "transit" {
                     return Err(err("path_iter on transit gate", "None", "Some"));
                 }
-                let got: Vec<String> = it.take(64).map(|c| c.endpoint.path().as_str().to_string()).collect();
+                let cons: Vec<_> = it.take(64).collect();
+                let got: Vec<String> = cons.iter().map(|c| c.endpoint.path().as_str().to_string()).collect();
                 if got != exp_path {
                     return Err(err(&format!("path_iter from {}", gp[g - 1]), &exp_path, &got));
+                }
+                // every connection on the path knows where it came from (prev_hop) and whether its hop has a channel
+                let mut prev = gp[g - 1].clone();
+                for c in &cons {
+                    let ph = c.prev_hop().map(|x| x.path().as_str().to_string());
+                    if ph.as_deref() != Some(prev.as_str()) {
+                        return Err(err(&format!("Connection::prev_hop on the path from {}", gp[g - 1]), Some(&prev), &ph));
+                    }
+                    let here = c.endpoint.path().as_str().to_string();
+                    let (ia, ib) = (gp.iter().position(|x| *x == prev).unwrap() + 1, gp.iter().position(|x| *x == here).unwrap() + 1);
+                    let want_ch = b.lat.get(&(ia.min(ib), ia.max(ib))).map(|d| *d > Duration::ZERO);
+                    if want_ch.is_some() && Some(c.channel.is_some()) != want_ch {
+                        return Err(err(&format!("Connection::channel presence on hop {prev} -> {here}"), want_ch, c.channel.is_some()));
+                    }
+                    prev = here;
                 }
                 let ng = gate.next_gate().map(|x| x.path().as_str().to_string());
                 if ng != exp_path.first().cloned() {
